@@ -5,7 +5,47 @@ from harness.props.bip32_common import IMPL, CLS, ORDER, rand_index, rand_seed
 from bip_utils import Base58Encoder, Base58Decoder, Bip32KeyNetVersions
 from bip_utils.base58.base58 import Base58Utils
 
-LEAN_MODULES = ["BipVerif.Props.C05"]
+LEAN_MODULES = ["BipVerif.Props.C05", "BipVerif.Props.C05Tables"]
+
+
+def pre_build():
+    from gen import gen_consts, gen_unicode, gen_coins
+    gen_unicode.main()
+    gen_consts.main()
+    gen_coins.main()
+
+
+def search_broken(broken, rng):
+    """the version-byte table theorem failed: exhibit an extended key that is no longer the one the registered version bytes give."""
+    from harness.props.c08 import search_broken as sb8
+    return sb8(broken, rng, fields=("keyNetPub", "keyNetPriv"))
+
+
+def _bech32_ref(hrp, data):
+    """BIP-173 Bech32 of a byte string (8->5 regrouping with padding), written from the standard: the SLIP-32 layout reference"""
+    acc, bits, five = 0, 0, []
+    for b in data:
+        acc = (acc << 8) | b
+        bits += 8
+        while bits >= 5:
+            bits -= 5
+            five.append((acc >> bits) & 31)
+    if bits:
+        five.append((acc << (5 - bits)) & 31)
+
+    def polymod(vals):
+        chk = 1
+        for v in vals:
+            top = chk >> 25
+            chk = ((chk & 0x1ffffff) << 5) ^ v
+            for i, g in enumerate((0x3b6a57b2, 0x26508e6d, 0x1ea119fa, 0x3d4233dd, 0x2a1462b3)):
+                if (top >> i) & 1:
+                    chk ^= g
+        return chk
+    exp = [ord(c) >> 5 for c in hrp] + [0] + [ord(c) & 31 for c in hrp]
+    pm = polymod(exp + five + [0] * 6) ^ 1
+    chars = "qpzry9x8gf2tvdw0s3jn54khce6mua7l"
+    return hrp + "1" + "".join(chars[d] for d in five + [(pm >> 5 * (5 - i)) & 31 for i in range(6)])
 MAIN = (bytes.fromhex("0488b21e"), bytes.fromhex("0488ade4"))
 
 
@@ -122,5 +162,39 @@ def relations(rng, tier, rpt):
                 bad.append({"property": "C05", "entry_point": "FromExtendedKey/ToExtended", "request_lines": [],
                             "relation": "parse then re-serialise is not the identity on the implementation",
                             "input": s, "impl_output": s2, "model_output": s, "no_failing_input": False})
+    # SLIP-32 form: layout against the standard (depth || path || chain code || key in Bech32 under xprv/xpub), parse, re-serialise;
+    # keys with leading zero bytes and long paths included
+    from bip_utils import Slip32PrivateKeySerializer, Slip32PublicKeySerializer, Slip32KeyDeserializer, Secp256k1PrivateKey, Ed25519PrivateKey, Bip32Path
+    ns = 0
+    for i in range(40 if tier == "quick" else 800):
+        ed = i % 5 == 4
+        kb = bytes(rng.randrange(256) for _ in range(32)) if ed else \
+            rng.choice([rng.randrange(1, ORDER["secp256k1"]), rng.randrange(1, 2**248), rng.randrange(1, 2**240), rng.randrange(1, 256), 1]).to_bytes(32, "big")
+        priv = (Ed25519PrivateKey if ed else Secp256k1PrivateKey).FromBytes(kb)
+        elems = [rand_index(rng, True if ed else None) for _ in range(rng.choice([0, 1, 3, 5, 10]))]
+        path = Bip32Path(elems, True)
+        cc = bytes(rng.randrange(256) for _ in range(32)) if i % 7 else bytes(2) + bytes(rng.randrange(256) for _ in range(30))
+        head = bytes([len(elems)]) + b"".join(e.to_bytes(4, "big") for e in elems) + cc
+        for is_pub, ser, key_field in ((False, Slip32PrivateKeySerializer.Serialize(priv, path, cc), b"\x00" + kb),
+                                      (True, Slip32PublicKeySerializer.Serialize(priv.PublicKey(), path, cc), priv.PublicKey().RawCompressed().ToBytes())):
+            ns += 1
+            want = _bech32_ref("xpub" if is_pub else "xprv", head + key_field)
+            if ser != want:
+                rep_s = {"property": "C05", "entry_point": "Slip32 serializer", "request_lines": [], "relation": "SLIP-32 string differs from the standard layout",
+                         "input": "%s path=%s" % (kb.hex(), elems), "impl_output": ser, "model_output": want, "no_failing_input": False}
+                bad.append(rep_s)
+                continue
+            try:
+                d = Slip32KeyDeserializer.DeserializeKey(ser)
+                got = (d.KeyBytes(), d.Path().ToList(), d.ChainCode().ToBytes(), d.IsPublic())
+            except Exception as ex:  # noqa
+                got = type(ex).__name__
+            exp = (key_field if is_pub else kb, elems, cc, is_pub)
+            if got != exp:
+                bad.append({"property": "C05", "entry_point": "Slip32KeyDeserializer.DeserializeKey", "request_lines": [],
+                            "relation": "parsing a SLIP-32 string does not reconstruct the key material and metadata it was built from",
+                            "input": ser, "impl_output": str(got if isinstance(got, str) else (got[0].hex(), got[1], got[2].hex(), got[3])),
+                            "model_output": str((exp[0].hex(), exp[1], exp[2].hex(), exp[3])), "no_failing_input": False})
+    rpt.extra["slip32_checks"] = ns
     rpt.extra["impl_roundtrips"] = n
-    return bad[:5]
+    return bad[:8]
